@@ -77,6 +77,17 @@ func configs07(tier string) []xplore.Config {
 			}
 		}
 	}
+	// authorisation cannot be established AND the request is not a well-formed
+	// subscription for a known target: still Unauthenticated (nothing about the
+	// request, not even whether the target exists, is revealed to a caller
+	// without credentials)
+	for _, md := range modes[:3] {
+		for _, tg := range []string{"t9", ""} {
+			sp := subSpec{target: tg, paths: []string{"*"}, mode: md.m, polls: md.p, user: "u"}
+			out = append(out, xplore.Config{Name: fmt.Sprintf("acl{newRPCACLfails:true} %s (unknown or missing target)", sp), Bound: bound,
+				Data: cfg07{true, true, true, sp, nil}})
+		}
+	}
 	return out
 }
 
